@@ -80,6 +80,8 @@ def run_check(prop: str, tier: str, seed: int, replay: str | None = None) -> int
     prop = prop.upper()
     mod = importlib.import_module("yv.props." + prop.lower())
     known_file = load_known()
+    if not replay:
+        shutil.rmtree(os.path.join(VERIF, "replays", prop), ignore_errors=True)
     if replay:
         with open(replay) as f:
             rv = json.load(f)
